@@ -8,7 +8,8 @@ ID = 'C20'
 PROPS_MODULE = ['Refine.Props.C20', 'Refine.Props.C20Ugrid']
 STREAMS = [streams_codec.C20_MESHB, streams_codec.C20_SOLB, streams_codec.C20_ROBUST,
            streams_codec.C20_HANG, streams_codec.C20_INDEX, streams_codec.C20_COUNT, streams_codec.C20_NAMES,
-           streams_ugrid.C20_MUT, streams_ugrid.C20_ROBUST, streams_ugrid.C20_INDEX, streams_ugrid.C20_SWEEP]
+           streams_ugrid.C20_MUT, streams_ugrid.C20_ROBUST, streams_ugrid.C20_INDEX, streams_ugrid.C20_COUNT,
+           streams_ugrid.C20_SWEEP]
 EXPLANATION = (
     'Obligations on the reader models (Refine/Props/C20.lean): totality; accepted_counts_fit; header_progress + '
     'header_scan_returns (every hop of the keyword scan moves strictly forward, so the scan returns on every byte '
